@@ -101,6 +101,14 @@ def render_func(prog, fname):
             nm = _ref_name(prog, cur, g["mod"], it["f"], it.get("form", "direct"))
             if g["kind"] == "class":
                 lines.append(f"    {r} = {nm}({lit(it.get('carg', 1))}).m()")
+            elif it.get("wrap") == "kw":
+                lines.append(f"    {r} = ident(v={nm}())")          # callee only reachable through a keyword argument
+            elif it.get("wrap") == "pos":
+                lines.append(f"    {r} = ident({nm}())")
+            elif it.get("wrap") == "chain":
+                lines.append(f"    {r} = Box({nm}()).get()")        # ... through the inner call of a method chain
+            elif it.get("wrap") == "hokw":
+                lines.append(f"    {r} = ident(v=[0], key={nm}) and [g_() for g_ in [ident(key={nm})]]")
             else:
                 lines.append(f"    {r} = {nm}()")
         elif t == "ho":
@@ -121,6 +129,10 @@ def render_func(prog, fname):
                     args.append(f"{a['n']}={lit(a['v'])}")
                 elif a["k"] == "kwrt":
                     args.append(f"{a['n']}={a['e']}")
+                elif a["k"] == "rtcall":
+                    args.append(_ref_name(prog, cur, prog["funcs"][a["f"]]["mod"], a["f"], "direct") + "()")
+                elif a["k"] == "kwrtcall":
+                    args.append(f"{a['n']}=" + _ref_name(prog, cur, prog["funcs"][a["f"]]["mod"], a["f"], "direct") + "()")
             if it.get("multiline"):
                 lines.append(f"    {r} = dds.keep({pexpr}, {nm},")
                 for a in args:
@@ -178,7 +190,11 @@ def _render_class(prog, fname):
 
 def _imports_for(prog, m):
     """Import lines of module m derived from the references its functions make."""
-    lines = ["import dds", "from simutil import rec"]
+    if prog.get("rec_builtin"):
+        # rec / ident / Box are installed in builtins by simutil: the functions then have no external name at all
+        lines = ["import dds", "import simutil"]
+    else:
+        lines = ["import dds", "from simutil import rec, ident, Box"]
     for k, em in enumerate(prog.get("extmods", ["extlib"])):
         lines.append(f"import {em} as extlib{k or ''}")
     froms, aliases, attrs, pkgattrs = set(), set(), set(), set()
@@ -192,6 +208,9 @@ def _imports_for(prog, m):
     for fn in funcs_in(prog, m):
         f = prog["funcs"][fn]
         for it in f["body"]:
+            for a in it.get("args", []):
+                if a["k"] in ("rtcall", "kwrtcall") and prog["funcs"][a["f"]]["mod"] != m:
+                    froms.add((prog["funcs"][a["f"]]["mod"], a["f"]))
             t = it["t"]
             if t == "var":
                 tm = prog["vars"][it["name"]]["mod"]
@@ -286,6 +305,18 @@ LOG = []
 FAIL = None  # {"at": name, "exc": exception object}
 
 
+def ident(v=None, *args, **kwargs):
+    return kwargs.get("key") if v is None and "key" in kwargs else v
+
+
+class Box(object):
+    def __init__(self, v):
+        self.v = v
+
+    def get(self):
+        return self.v
+
+
 def rec(name):
     f = FAIL
     if f is not None and f["at"] == name:
@@ -293,6 +324,11 @@ def rec(name):
         raise f["exc"]
     LOG.append(name)
     return name
+
+
+import builtins as _b
+
+_b.rec, _b.ident, _b.Box = rec, ident, Box
 '''
 
 
